@@ -558,9 +558,10 @@ func init() {
 		Run: Runner("C01", false),
 		Finish: func(a *core.Agg) {
 			a.FloorNontrivial(40)
-			for _, k := range []string{"action.rotate-wait", "action.compact:l0", "action.compact:ingest-drain", "action.compact:ingest-merge", "action.gc", "action.reopen"} {
+			for _, k := range []string{"action.rotate-wait", "action.compact:l0", "action.compact:ingest-drain", "action.compact:ingest-merge", "action.reopen"} {
 				a.Floor(k, 8)
 			}
+			a.Floor("action.gc", 3) // a forced rewrite only has an effect when a sealed value-log segment exists (C08 is the GC-heavy runner)
 			a.Floor("action.compact:l0-to-l0", 2)
 		},
 	})
